@@ -24,7 +24,7 @@ type Config struct {
 	LinkIntents []string // overrides the set of link intents
 }
 
-var plainNames = []string{"a", "b", "c", "A", "Foo", "foo", "bar", "x.txt", "main.tf", "README.md", "mod", "sub", "data", "baz.txt"}
+var plainNames = []string{".DS_Store", "._main.tf", "a", "b", "c", "A", "Foo", "foo", "bar", "x.txt", "main.tf", "README.md", "mod", "sub", "data", "baz.txt"}
 var ignoreNames = []string{".git", ".terraform", "modules", "terraform.d", ".terraform", ".git"}
 var awkwardNames = []string{
 	"with space", "-dash", ".hidden", "a+b", "(paren)", "[br]", "{cur}", "pipe|x", "^car", "$dol", "#hash", "!bang", "star*", "q?",
@@ -102,6 +102,11 @@ func genSpec(cfg Config) *rapid.Generator[spec] {
 				s.Content = ""
 			case c == 3:
 				s.Content = "IN:big:" + strings.Repeat("0123456789abcdef", 4096)
+			case c == 4:
+				s.Content = strings.Repeat("\x00", 16) // a placeholder of zero bytes
+			case c == 5:
+				// data, then a long run of zero bytes up to the end (a "hole" at the tail)
+				s.Content = "IN:zt:" + strings.Repeat("0123456789abcdef", 2500) + strings.Repeat("\x00", 30000)
 			default:
 				s.Content = "IN:" + string(rune('A'+c%26)) + s.Name
 			}
@@ -281,7 +286,7 @@ func build(specs []spec, cfg Config) fsx.Tree {
 				n.Target = rel(ds[pick%len(ds)])
 			}
 		case "dangling":
-			n.Target = []string{"missing", "./missing/deeper", "nothing.txt"}[pick%3]
+			n.Target = []string{"missing", "./missing/deeper", "nothing.txt", "..\\..\\ext\\f", "back\\slash"}[pick%5]
 		case "chain":
 			others := []string{}
 			for _, l := range links {
@@ -326,7 +331,7 @@ func build(specs []spec, cfg Config) fsx.Tree {
 			n.Target = []string{ups + "../ext/nothing", "{R}/nowhere", ups + "../../../nowhere"}[pick%3]
 		case "out-via-dotlink":
 			// reads as a path inside the tree; leaves it by way of an in-tree link to "." (added below)
-			n.Target = ups + "zz-dot/../" + []string{"ext/f", "ext/d", "ext/d/g", "src-evil/secret"}[pick%4]
+			n.Target = ups + "zz-dot/../" + []string{"ext/f", "ext/d", "ext/d/g", "src-evil/secret", "nowhere", "ext/nothing-here"}[pick%6]
 			needDot = true
 		case "exact-parent":
 			// exactly the directory that contains the source directory
